@@ -475,7 +475,8 @@ func (idx *KVIndex) FieldTermNumberMax(field string) float64 {
 			_, _, term := TermKeyParse(it.Key())
 			val := GetBytesTerm(term, TermNumber).(float64)
 			log.WithFields(log.Fields{"field": field}).Debugf("KVIndex: FieldTermNumberMax: MaxScan: %f", val)
-			if val > 0 {
+			//anything found here is a non negative number, which is above every negative one
+			if val >= 0 {
 				min = val
 				return nil
 			}
